@@ -95,8 +95,9 @@ fn extra_engines(prop: &str, tier: Tier, seed: u64, planned: u64, first: &std::c
     // ---- Miri engine (interpreter with seeded scheduler / RNG, data-race and UB detection)
     let plan: Vec<(&str, u64, u32, &[&str], bool)> = match (prop, tier) {
         // (mode, scenarios, interpreter seeds per scenario, pre-emption rates, also without the prefetch feature)
-        ("C18", Tier::Quick) => vec![("c18", 2, 8, &["0.1"], false)],
-        ("C18", Tier::Thorough) => vec![("c18", 6, 24, &["0.01", "0.1", "0.5"], false)],
+        // c18all: one tiny value of every structure family per execution, so a data race anywhere is in reach
+        ("C18", Tier::Quick) => vec![("c18all", 1, 6, &["0.1"], false)],
+        ("C18", Tier::Thorough) => vec![("c18", 6, 24, &["0.01", "0.1", "0.5"], false), ("c18all", 3, 16, &["0.01", "0.5"], false)],
         ("C02", Tier::Thorough) => vec![("c02", 4, 32, &["0.01"], false)],
         ("C03", Tier::Thorough) => vec![("c03", 4, 32, &["0.01"], false)],
         ("C09", Tier::Thorough) => vec![("c09", 4, 8, &["0.01"], true)],
@@ -107,7 +108,7 @@ fn extra_engines(prop: &str, tier: Tier, seed: u64, planned: u64, first: &std::c
         ex.evaluations += r.executions;
         ex.found.extend(r.found);
         ex.harness_errors.extend(r.harness_errors);
-        ex.coverage.insert("miri".into(), r.coverage);
+        ex.coverage.insert(format!("miri_{mode}"), r.coverage);
     }
     ex
 }
